@@ -8,3 +8,4 @@ import XPathV.Theorems.C02
 #print axioms XPathV.Theorems.C02.C02_keeps_exactly_the_true_ones
 #print axioms XPathV.Theorems.C02.C02_at_source_config
 #print axioms XPathV.Theorems.C02.C02_filter_is_list_filter
+#print axioms XPathV.Theorems.C02.evaluate_restarts_all_iterators
